@@ -87,14 +87,16 @@ def realize_all(x):
     return deep_realize(x)
 
 
-def sym_ceil(v):
-    c = int(v)
-    return c if c == v else (c + 1 if v > 0 else c)
-
-
 def sym_floor(v):
-    c = int(v)
-    return c if c == v else (c if v > 0 else c - 1)
+    # __floor__ of CrossHair's real-valued float is symbolic (ToInt); the builtin int()
+    # would realise a symbolic real
+    # (CrossHair patches math.floor to realise its argument, so call the dunder directly)
+    return v.__floor__()
+
+
+def sym_ceil(v):
+    f = sym_floor(v)
+    return f if f == v else f + 1
 
 
 class Realizing:
@@ -124,3 +126,22 @@ class Realizing:
             return f(*realize_all(a), **realize_all(k))
 
         return call
+
+
+def sym_round(x, ndigits=None):
+    """round-half-to-even written with int() so that a symbolic real is never realised"""
+    if ndigits is not None:
+        return round(x, ndigits)
+    if isinstance(x, int):
+        return x
+    neg = x < 0
+    a = -x if neg else x
+    c = sym_floor(a)
+    frac = a - c
+    if frac > 0.5:
+        r = c + 1
+    elif frac < 0.5:
+        r = c
+    else:
+        r = c if c % 2 == 0 else c + 1
+    return -r if neg else r
